@@ -896,6 +896,8 @@ def float_method(I, x, name, args, node):
     if name in ("floor", "ceil", "round", "trunc"):
         rm = {"floor": z3.RTN(), "ceil": z3.RTP(), "round": z3.RNA(), "trunc": z3.RTZ()}[name]
         return Float(z3.fpRoundToIntegral(rm, x.v))
+    if name == "fract":
+        return Float(z3.fpSub(z3.RNE(), x.v, z3.fpRoundToIntegral(z3.RTZ(), x.v)))
     if name == "to_bits":
         # IEEE-754 bit pattern (NaN payloads as z3 chooses: fpToIEEEBV is unspecified on NaN; callers assume finite)
         return int_from_z(z3.fpToIEEEBV(x.v), 64, False)
